@@ -1,5 +1,5 @@
-\* quick: every tree of depth <= 3 over one atom (20 k trees x 3 spellings), flat formulas with <= 3 operators
-CONSTANTS TreeDepth = 3 Atoms = {"a"} FlatOps = 3
+\* quick: every tree of depth <= 3 over one atom (18 k trees, minimal parentheses), flat formulas with <= 3 operators
+CONSTANTS TreeDepth = 3 Atoms = {"a"} FlatOps = 3 Variants = 1
 SPECIFICATION Spec
 INVARIANTS RoundTrip FlatObeysRanks
 CHECK_DEADLOCK FALSE
